@@ -1053,6 +1053,20 @@ func c01GroupArg(r *core.Run, a *svcAnchors, root []*ssa.Function) {
 			gf, ok := core.LoadedField(c.Common().Args[0])
 			good = ok && gf.Struct == "regHandler" && gf.Name == "group"
 		}
+		// the name handed to toString is what an unset group defaults to: it must be the looked-up
+		// resource name itself (the lookup's string parameter), not a remainder of it
+		if good && len(c.Common().Args) > 1 {
+			nameOK := false
+			for _, av := range paramArgs(p, core.Strip(c.Common().Args[1]), 0) {
+				if prm, ok := core.Strip(av).(*ssa.Parameter); ok && isStringType(prm.Type()) && prm.Parent().Object() != nil && prm.Parent().Object().Exported() {
+					nameOK = true
+				} else {
+					nameOK = false
+					break
+				}
+			}
+			r.Check(nameOK, "F2", core.FuncName(ac.Fn), "default-group<-full-resource-name", p.InstrPos(c), "an unset group defaults to the full resource name", "the group template is evaluated with "+valDesc(c.Common().Args[1])+" instead of the full resource name: a handler without a Group option gets the wrong (possibly empty = parallel) worker group")
+		}
 		r.Check(good, "F2", core.FuncName(ac.Fn), "store(Match.Group)<-regHandler.group.toString", p.InstrPos(st), "Match.Group is the registered group template evaluated on the name", "Match.Group written from "+valDesc(st.Val))
 	}
 	c01ParallelGroup(r, "F2")
